@@ -849,6 +849,14 @@ def gen_C09(r, n, thorough=False):
         c.add('convert.impl_From_TwoFloat_for_f32.from %s' % w2(t), kind='tof32', t=t)
         x = fp.any_f64(r)
         c.add('convert.impl_From_f64_for_TwoFloat.from %s' % hx(x), kind='fromf64', x=x)
+        # high word exactly half-way between two adjacent f32 values (25 significant bits, the last one set), with a low word of
+        # either sign: f32::from(x) is the high word rounded to f32 (ties to even), whatever the low word says
+        e = r.rng(-120, 120)
+        mid = math.ldexp(float((r.rng(2**23, 2**24 - 1) << 1) | 1), e - 24) * r.choice([1.0, -1.0])
+        lo_ = math.ldexp(float(r.rng(1, 2**20)), math.frexp(mid)[1] - 54 - r.rng(21, 80)) * r.choice([1.0, -1.0, 0.0])
+        for ref in ('TwoFloat', 'rTwoFloat'):
+            if fp.is_valid(mid, lo_):
+                c.add('convert.impl_From_%s_for_f32.from %s' % (ref, w2((mid, lo_))), kind='tof32', t=(mid, lo_))
     return c
 
 def chk_C09(c, ans):
@@ -1481,6 +1489,21 @@ def gen_C12(r, n):
         x = log_uniform_tf(r, -450, 450)
         c.add('TwoFloat.to_degrees %s' % w2(x), kind='deg', x=x)
         c.add('TwoFloat.to_radians %s' % w2(x), kind='rad', x=x)
+    # worst cases of the double-double product x * factor: high word just above a power of two (the relative weight of every
+    # rounding error is largest there) with a low word just inside the half-ulp limit, both signs
+    for _ in range(3 * n):
+        e = r.rng(-400, 400)
+        u = Fr(r.rng(2**52, 2**53 - 1), 2**52) * Fr(1, 2 ** r.rng(8, 52))
+        h = fp.rn(Fr(2) ** e * (1 + u))
+        half = fp.rn(fp.ulp(h) / 2)
+        l = fp.rn(Fr(half) * (1 - Fr(r.rng(0, 2**30), 2**30) / r.choice([2**40, 2**20, 64]))) * r.choice([1, 1, -1])
+        x = (h, l) if fp.is_valid(h, l) else (h, math.nextafter(half, 0.0))
+        if not fp.is_valid(*x):
+            continue
+        sg = r.choice([1.0, -1.0])
+        x = (x[0] * sg, x[1] * sg)
+        c.add('TwoFloat.to_degrees %s' % w2(x), kind='deg', x=x)
+        c.add('TwoFloat.to_radians %s' % w2(x), kind='rad', x=x)
     # greatest / least valid values: random valid values compared against MAX and MIN
     for _ in range(max(10, n // 10)):
         x = tf_in(r, 1000, 1024)
@@ -1710,6 +1733,18 @@ def gen_C14(r, n, thorough=False):
         iy = r.choice([(float(r.rng(-9, 9)), 0.0), tf_of_fr(Fr(2**60 + r.rng(0, 7))), tf_of_fr(Fr(2**53 + 1))])
         c.add('TwoFloat.powf %s %s' % (w2(nb), w2(iy)), kind='powf_neg_int', x=nb, y=iy)
         c.add('TwoFloat.powf %s %s' % (w2(nb), w2(py)), kind='powf_neg', x=nb, y=py)
+        # non-integers hiding behind an integer word: integer high word with a tiny low word, half-integers with an integer low word,
+        # large even/odd high words with a fractional low word — the integrality test must look at BOTH words
+        kq = r.below(3)
+        if kq == 0:
+            qy = Fr(r.rng(-9, 9)) + Fr(r.choice([1, -1]), 2 ** r.rng(53, 100))
+        elif kq == 1:
+            qy = Fr(2 ** r.rng(53, 60) + 2 * r.rng(0, 50)) + Fr(r.rng(1, 7), 8)
+        else:
+            qy = Fr(r.rng(-9, 9)) + Fr(r.rng(1, 2 ** 20 - 1), 2 ** 20) * Fr(1, 2 ** r.rng(0, 50))
+        qt = tf_of_fr(qy)
+        if V(*qt).denominator != 1:
+            c.add('TwoFloat.powf %s %s' % (w2(nb), w2(qt)), kind='powf_neg', x=nb, y=qt)
         c.add('TwoFloat.powf %s %s' % (w2(px), w2((0.0, 0.0))), kind='powf_y0', x=px)
         c.add('TwoFloat.powf %s %s' % (w2((0.0, 0.0)), w2(py)), kind='powf_x0', y=py)
         # thresholds
